@@ -326,6 +326,9 @@ func (c *Client) Send(packet stanza.Packet) error {
 	if conn == nil {
 		return errors.New("client is not connected")
 	}
+	if err := c.checkSessionEstablished(); err != nil {
+		return err
+	}
 
 	data, err := xml.Marshal(packet)
 	if err != nil {
@@ -377,6 +380,9 @@ func (c *Client) SendRaw(packet string) error {
 	if conn == nil {
 		return errors.New("client is not connected")
 	}
+	if err := c.checkSessionEstablished(); err != nil {
+		return err
+	}
 
 	// Store stanza as non-acked as part of stream management
 	// See https://xmpp.org/extensions/xep-0198.html#scenarios
@@ -387,6 +393,17 @@ func (c *Client) SendRaw(packet string) error {
 		c.holdUnacked(&toStore)
 	}
 	return c.sendWithWriter(c.transport, []byte(packet))
+}
+
+// checkSessionEstablished refuses to send while no session is established. While a connection is being
+// negotiated the transport already has its new connection, but that connection is not encrypted yet and
+// the server expects the negotiation, not stanzas: what the application sends at that time (it may not even
+// know that a StreamManager is reconnecting) must not go out on it.
+func (c *Client) checkSessionEstablished() error {
+	if c.CurrentState.getState() != StateSessionEstablished {
+		return errors.New("client is not connected: no established session")
+	}
+	return nil
 }
 
 // isStanzaName tells whether an element name is the one of a stanza. Stanzas, and only stanzas, are counted
